@@ -12,6 +12,10 @@ static PEAK: AtomicUsize = AtomicUsize::new(0);
 static LARGEST: AtomicUsize = AtomicUsize::new(0);
 static COUNT: AtomicUsize = AtomicUsize::new(0);
 static BUDGET: AtomicUsize = AtomicUsize::new(usize::MAX);
+/// Live bytes that belong to the harness (corpus cache, generator tables, the prepared storage
+/// of the current run). The budget applies to what the run allocates on top of this, so that a
+/// run behaves the same inside a long campaign worker and in an isolated replay process.
+static BASE: AtomicUsize = AtomicUsize::new(0);
 
 pub fn set_budget(bytes: usize) {
     BUDGET.store(bytes, Relaxed);
@@ -28,8 +32,9 @@ pub fn largest() -> usize {
 pub fn count() -> usize {
     COUNT.load(Relaxed)
 }
-/// Start a new measurement window: peak := live, largest := 0.
+/// Start a new measurement window: base := live, peak := live, largest := 0.
 pub fn reset_window() {
+    BASE.store(LIVE.load(Relaxed), Relaxed);
     PEAK.store(LIVE.load(Relaxed), Relaxed);
     LARGEST.store(0, Relaxed);
 }
@@ -70,7 +75,7 @@ fn refuse(size: usize) {
 fn account(size: usize) -> bool {
     let budget = BUDGET.load(Relaxed);
     let live = LIVE.load(Relaxed);
-    if size > budget || live.saturating_add(size) > budget {
+    if size > budget || live.saturating_sub(BASE.load(Relaxed)).saturating_add(size) > budget {
         refuse(size);
         return false;
     }
